@@ -166,26 +166,27 @@ def register(claim, na):
 # clauses added in session 2, rounds 2-3 (appended to the claim text; the rule catalogue with techniques is DESIGN.md 4c)
 ADDED = {
     "C01": "R-WEIGHTROLE: in get_barycentric_coordinates_plane the weights of an edge stay with its two vertices, the third is 0 and closed-form weights sum to 1. R-ERICSON: the six Voronoi-region tests of closest_point_triangle are Ericson's conditions (names resolved to the vertices).",
-    "C02": "R-ERICSON (jolt triangle solver); R-MAINLOOP (the two Nesterov main loops are statement-for-statement the same shape); R-PORTALDIR (the portal "
+    "C02": "R-SUPPORTSIBLING (box / capsule / cylinder supports of the two Nesterov files have the same shape up to data access); R-ERICSON (jolt triangle solver); R-MAINLOOP (the two Nesterov main loops are statement-for-statement the same shape); R-PORTALDIR (the portal "
            "direction used with the length tolerance of MPR is unit).",
-    "C03": "R-BASISGUARD (plane_basis_from_normal branches on magnitudes before dividing by the length of the winning pair); R-ADJACENCY (each vertex of a mesh "
+    "C03": "R-SHORTCUTS (the six signed-axis extremes are the shortcut vertices of the hill climb); R-BASISGUARD (plane_basis_from_normal branches on magnitudes before dividing by the length of the winning pair); R-ADJACENCY (each vertex of a mesh "
            "triangle gets the other two as neighbours); R-HALFSIZE; R-PUREARGS (public functions never modify an array argument in place).",
     "C04": "R-LINKS / R-REFIT on the AABB tree that backs RigidBody.aabb(); R-HALFSIZE; R-PUREARGS.",
-    "C05": "R-CLOSED is decided by abstract evaluation of aabb_overlap's body on all 729 order types of the six bound pairs (loops, early exits and negations included).",
+    "C05": "R-TRAVERSE additionally: no exit before the traversal (no pre-filter on the query box). R-CLOSED is decided by abstract evaluation of aabb_overlap's body on all 729 order types of the six bound pairs (loops, early exits and negations included).",
     "C06": "R-CLOSED by abstract evaluation (see C05).",
     "C07": "R-LOUDCAP: running out of polytope faces is asserted, never a silent break.",
     "C08": "R-ERICSON (point_to_triangle, used for depth and direction); R-PORTALDIR.",
-    "C09": "R-MAINLOOP (see C02).",
-    "C10": "R-ERICSON (point_to_triangle); R-HALFSIZE; R-PUREARGS.",
-    "C11": "R-ERICSON; R-SIDES (x2 computed from side-2 data: the rectangle extents); R-HALFSIZE.",
+    "C09": "R-MAINLOOP, R-SUPPORTSIBLING (see C02); R-COFACTORSIGN: every cofactor comparison in BarycentricCoordinates is `d > c` or its exact complement `d <= c`.",
+    "C10": "R-SEGSIBLING (_line_to_line_segment is _line_segment_to_line_segment minus the clamping of t); R-PARALLELSIGN (parallel tests are orientation independent); R-ERICSON (point_to_triangle); R-HALFSIZE; R-PUREARGS.",
+    "C11": "R-SEGSIBLING; R-PARALLELSIGN; R-ERICSON; R-SIDES (x2 computed from side-2 data: the rectangle extents); R-HALFSIZE.",
     "C12": "R-MIRROR / R-CASEDISPATCH / R-TOURNAMENT / R-BOXFACE: the line-to-box case analysis is invariant under relabelling of the box axes.",
-    "C13": "R-HALFSIZE over the predicates and the point_to_<shape> functions they must agree with; R-PUREARGS.",
-    "C14": "R-ADJACENCY; R-PUREARGS.",
-    "C15": "R-STIFFNESS: both terms of the contact-plane expression carry the same Young's-modulus exponents (dimensional bookkeeping with E1, E2 as units); "
+    "C13": "R-SQRTDOMAIN for np.sqrt in the predicates; R-HALFSIZE over the predicates and the point_to_<shape> functions they must agree with; R-PUREARGS.",
+    "C14": "R-SHORTCUTS; R-ADJACENCY; R-PUREARGS.",
+    "C15": "R-ANGLESORT (contact polygon ordered by arctan2(y, x) about the centroid); R-BOUNDEDSTORE (counter-indexed stores into local buffers are bounded by a check or by the loop count); R-STIFFNESS: both terms of the contact-plane expression carry the same Young's-modulus exponents (dimensional bookkeeping with E1, E2 as units); "
            "R-HPLAYOUT: half-plane rows (px, py | dx, dy) are sliced only at pair boundaries.",
     "C16": "R-STIFFNESS (see C15).",
-    "C18": "R-ERICSON (jolt); Solution.from_vertex stores weight 1 in slot 0 (R-JOHNSON).",
+    "C18": "R-COFACTORSIGN; R-ERICSON (jolt); Solution.from_vertex stores weight 1 in slot 0 (R-JOHNSON).",
     "C19": "R-BASISGUARD.",
+    "C20": "R-BOUNDEDSTORE (see C15).",
 }
 ALL = "R-UNPACK (tuple results unpacked in the callee's return order) and R-DUPCOND (no repeated operand / self-comparison / repeated elif test) over every function in the property's scope."
 
